@@ -20,7 +20,12 @@ pub struct Obs {
 }
 
 fn cfg(bidi: Option<u64>) -> anemo::Config {
+    cfg2(bidi, None)
+}
+
+fn cfg2(bidi: Option<u64>, inbound_timeout_ms: Option<u64>) -> anemo::Config {
     let mut c = anemo::Config::default();
+    c.inbound_request_timeout_ms = inbound_timeout_ms;
     if let Some(n) = bidi {
         let mut q = anemo::QuicConfig::default();
         q.max_concurrent_bidi_streams = Some(n);
@@ -117,8 +122,11 @@ async fn abandoned_rpc(
 async fn scenario(sim: Arc<Sim>, unit: Value) -> Obs {
     let mut o = Obs::default();
     let bidi = unit["bidi_limit"].as_u64();
-    let a = sim.start(&NodeSpec::new(1).config(cfg(bidi))).unwrap();
-    let b = sim.start(&NodeSpec::new(2).config(cfg(bidi))).unwrap();
+    // a long deadline may be in force on the serving side: it must not keep abandoned handlers alive
+    let deadline = unit["deadline"].as_str().unwrap_or("none").to_string();
+    let inbound = (deadline == "inbound-default").then_some(5_000u64);
+    let a = sim.start(&NodeSpec::new(1).config(cfg2(bidi, inbound))).unwrap();
+    let b = sim.start(&NodeSpec::new(2).config(cfg2(bidi, inbound))).unwrap();
     let (na, nb) = (sim.node_of(&a), sim.node_of(&b));
     sim.fabric.set_latency_us(na, nb, LAT_US);
     sim.fabric.set_latency_us(nb, na, LAT_US);
@@ -150,6 +158,9 @@ async fn scenario(sim: Arc<Sim>, unit: Value) -> Obs {
     for (i, how) in calls.iter().enumerate() {
         let id = format!("x{i}");
         let mut spec = RpcSpec::new(&id).route("/x").body(pattern_body(i as u64, body_len));
+        if deadline == "header" {
+            spec = spec.header("timeout", "5000000000");
+        }
         match handler.as_str() {
             "never" => spec = spec.header("never", "1"),
             "sleep" => spec = spec.header("sleep-ms", "10"),
@@ -281,7 +292,10 @@ impl Check for C12 {
                 }
                 for p in points {
                     let dev = p["how"] == "datagrams" || p["how"] == "handler_start";
-                    u.push(json!({"kind":"point","reverse":reverse,"handler":handler,"body_len":20,"abandons":[p],"bound": if dev { 2 } else { 1 },"fate_budget":12}));
+                    for deadline in ["none", "inbound-default", "header"] {
+                        let bound = if deadline == "none" { if dev { 2 } else { 1 } } else { tier.pick(0, 1) };
+                        u.push(json!({"kind":"point","reverse":reverse,"handler":handler,"body_len":20,"abandons":[p.clone()],"deadline":deadline,"bound":bound,"fate_budget":12}));
+                    }
                 }
             }
             // 200 KiB request: several flights; abandon after every n-th datagram
